@@ -172,6 +172,26 @@ def run(ctx):
     from treadmill.trace.app import zk as app_zk
     from treadmill.trace.server import zk as server_zk
 
+    # the readers run on one host that looks at many cells over time (every case is another cell): what a reader
+    # leaves in the host's temp directory is still there for the next cell
+    reader_tmp = tempfile.mkdtemp(prefix='vf-c18-reader-', dir='/dev/shm' if os.path.isdir('/dev/shm') and os.access('/dev/shm', os.W_OK) else None)
+    try:
+        _cases(ctx, reader_tmp)
+    finally:
+        shutil.rmtree(reader_tmp, ignore_errors=True)
+
+
+def _cases(ctx, reader_tmp):
+    import time
+    from treadmill import context
+    from treadmill import zknamespace as z
+    from treadmill.api import state as api_state
+    from treadmill.sproc import trace as sproc_trace
+    from treadmill.trace import _zk as trace_zk
+    from . import c15
+    cleanup_cmd = sproc_trace.init().commands['cleanup']
+    from treadmill.trace.app import zk as app_zk
+    from treadmill.trace.server import zk as server_zk
     for idx, rng in ctx.cases():
         if idx == 2:
             listing_case(ctx, idx, rng)
@@ -230,6 +250,14 @@ def run(ctx):
                         path = z.path.trace(i, node.split(',', 1)[1])
                         if not adm.exists(path):
                             adm.create(path, b'')
+                        if rng.random() < 0.25:
+                            # two events of one instance in the same tick (equal timestamps, e.g. two services reporting
+                            # at once): an archiving batch may end between them
+                            _ts2, _src2, _inst2, etype2, edata2, _p2 = c15.gen_event(rng)[3].to_data()
+                            twin = z.path.trace(i, '%s,host%d,%s,%s' % (ts, rng.randint(0, 3), etype2, edata2))
+                            if not adm.exists(twin):
+                                adm.create(twin, b'')
+                                ctx.count('events_with_equal_timestamps')
                 for i in insts:
                     # (a stale terminal event of a host that no longer owns the placement leaves a /finished
                     # record for an instance that is still scheduled: trace.app.zk.publish + _unschedule)
@@ -372,6 +400,7 @@ def run(ctx):
                 if n != sizes[h]:
                     ctx.violation('short-batch-archived', '%s holds %d rows, batch size %d' % (p, n, sizes[h]), case=dict(case=idx))
             # download_batch finds the archived events of an instance in a present snapshot
+            tempfile.tempdir = reader_tmp
             present = srv.children(z.TRACE_HISTORY)
             by_snap = {}
             for path, snap in archived.items():
@@ -440,6 +469,7 @@ def run(ctx):
                     ctx.violation('trace-reader-misses-archived-events', '%s: %d archived events in present snapshots %s, the reader was '
                                   'handed %d; missing e.g. %s' % (inst, len(want), sorted(per_inst[inst]), len(set(handed) & set(want)), miss[0]),
                                   case=dict(case=idx))
+            tempfile.tempdir = tmp
             # every write is a crash point
             cut_points = range(1, total + 1)
             if bulky:
